@@ -532,6 +532,40 @@ func c07conns(r *Run) {
 	}
 	r.NonTriv = true
 	r.CountN("conn_bytes_moved", int(cs+ss))
+	// One run in two ends with the server writing several fragments' worth and closing as soon as Write has
+	// returned success - "a write reported as successful is delivered" whatever the application does next. The
+	// writer may be taken off the processor between any two of its critical sections (PreemptOn).
+	if len(writeErrs) == 0 && !dc.Closed() && c.Chance(1, 2, "write-then-close") {
+		frag := int(dc.Serializer.Downstream.FragmentSize)
+		nb := frag*(1+c.Pick(6, "wc-fragments")) + 1 + c.Pick(frag, "wc-rest")
+		want := ss + int64(nb)
+		r.PreemptOn("preempt-seed")
+		ps.Do(Op{Kind: "write-close", N: nb})
+		out = r.Drive(&NetPolicy{Whole: true}, func() bool {
+			_, got, eof, rerr, _, _ := pc.Snapshot()
+			return got == want || eof || rerr != nil
+		}, nil, 2*time.Minute, 20*time.Minute)
+		r.YieldsOff()
+		if out == Aborted {
+			return
+		}
+		r.RunFor(5 * time.Second)
+		sent, _, _, _, sclosed, _ := ps.Snapshot()
+		_, got, eof, rerr, _, _ := pc.Snapshot()
+		ps.mu.Lock()
+		werr := ps.TxErr
+		ps.mu.Unlock()
+		switch {
+		case werr != nil:
+			r.FailSig("write-failed-on-isolated-loss", sig+" write-then-close", "on a loss-free path the server's last Write of %d bytes failed: %v", nb, werr)
+			return
+		case sent == want && sclosed && got < want:
+			r.FailSig("not-delivered", sig+" write-then-close", "%s: the server's Write of %d bytes (%d fragments of %d) returned success and the server closed; the client received %d of them before its stream ended (eof=%v err=%v)", out, nb, (nb+frag-1)/frag, frag, got-ss, eof, rerr)
+			return
+		case sent == want && got == want:
+			r.Count("write_then_close_delivered")
+		}
+	}
 	if int(cOut)+int(cs)/150 > 65535 || int(sOut)+int(ss)/1000 > 65535 || cOut > 65400 || sOut > 65400 {
 		r.Count("sequence_wrap_region")
 	}
